@@ -15,13 +15,13 @@ Proof. induction l as [|y r IH]; intros [|i] x; cbn; auto. Qed.
 Definition shared_label (l : label) : bool :=
   match l with LDeliver | LCbBlock _ | LCbDone | LHandlerErr | LRecvExit | LWatch | LFail => true | _ => false end.
 
-Ltac dst s := destruct s as [todo0 pc0 hp0 srv0 pst0 busy0 usecb0 watch0 stopped0 wire0 cblog0 rets0 got0 cbbase0].
+Ltac dst s := destruct s as [[cb0 cr0 cd0] todo0 pc0 hp0 srv0 pst0 busy0 usecb0 watch0 stopped0 wire0 cblog0 rets0 got0 cbbase0].
 
 (* a shared step does the same thing whoever's view it is taken through *)
 Lemma deliver_setpc s p td m r :
   pc (deliver (setpc s p td) m r) = p /\ todo (deliver (setpc s p td) m r) = td /\
   strip (deliver (setpc s p td) m r) = strip (deliver (setpc s CIdle []) m r).
-Proof. dst s. destruct pst0, m as [| |[b|]|]; cbn; try (repeat split; fail); destruct usecb0; repeat split. Qed.
+Proof. dst s. destruct pst0, m as [| |[b|]|]; cbn; try (repeat split; fail); destruct usecb0, cb0, cr0, cd0; repeat split. Qed.
 
 Lemma shared_transfer fx s p1 t1 p2 t2 l s1 : shared_label l = true ->
   step fx (setpc s p1 t1) l = Some s1 ->
